@@ -59,12 +59,18 @@ static std::vector<size_t> index_values(size_t n) {
 }
 
 // everything about ONE window: size, intervals, iteration, front/back, at, [], conversions
+static void battery(const Sup &s, const Grd &g, const std::vector<double> &p, W w, vf::Obs &o);
 static void check_single(const SupC &c, vf::Obs &o) {
   size_t n = (size_t)c.n;
   auto p = pts(n);
   Grd g(p);
   W w{c.s1, c.e1};
   Sup s(g, (size_t)w.s, (size_t)w.e);
+  battery(s, g, p, w, o);
+}
+// every accessor of ONE support against the set model: the support is expected to be the window w of the grid g (points p)
+static void battery(const Sup &s, const Grd &g, const std::vector<double> &p, W w, vf::Obs &o) {
+  const size_t n = p.size();
   if (w.empty()) o.cls("empty");
   else if (w.size() == 1) o.cls("point");
   else o.cls("intervals");
@@ -257,6 +263,47 @@ static void check_moved(const SupC &c, vf::Obs &o) {
   VCHECK(o, src == src2 && src2 == src, "two moved-from supports (from different windows) compare unequal");
 }
 
+// A support that is RE-SEATED - assigned, move-assigned or swapped onto another window of another grid (shared, equal in a
+// distinct object, or logically different, also of another size) - is afterwards that window of that grid for EVERY
+// accessor: size, iteration, front/back, at, operator[], index conversions, equality, union, intersection.
+static void check_reseated(const SupC &c, vf::Obs &o) {
+  size_t n = (size_t)c.n;
+  auto p = pts(n);
+  Grd g(p);
+  W w1{c.s1, c.e1};
+  bool eqc = true;
+  Grd g2 = other_grid(g, n, c.gridmode, eqc);
+  const size_t n2 = g2.size();
+  W w2{std::min<i64>(c.s2, (i64)n2), std::min<i64>(c.e2, (i64)n2)};
+  if (w2.e <= w2.s) w2 = W{0, 0};
+  o.nt(true);
+  o.cls("gridmode:" + std::to_string(std::min<i64>(c.gridmode, 5)));
+  const int how = (int)(((c.s3 % 6) + 6) % 6);
+  o.cls("reseat:" + std::to_string(how));
+  Sup t(g2, (size_t)w2.s, (size_t)w2.e);          // the object that gets re-seated: starts as window w2 of the OTHER grid
+  if (!t.empty()) { (void)t.front(); (void)t.back(); (void)t[0]; }  // use it first: whatever it caches is now filled
+  for (const auto &x : t) (void)x;
+  Sup src(g, (size_t)w1.s, (size_t)w1.e);
+  switch (how) {
+    case 0: t = src; break;                                            // copy assignment
+    case 1: t = std::move(src); break;                                 // move assignment
+    case 2: { std::swap(t, src); break; }                              // swap (move construction + two move assignments)
+    case 3: { Sup tmp(std::move(src)); t = std::move(tmp); break; }    // through a move-constructed temporary
+    case 4: { t = Sup::createEmpty(g2); t = src; break; }              // via an empty support first
+    default: { Sup mid(g2, 0, n2); mid = src; t = mid; t = std::move(mid); break; }
+  }
+  battery(t, g, p, w1, o);
+  Sup fresh(g, (size_t)w1.s, (size_t)w1.e);
+  VCHECK(o, t == fresh && fresh == t && !(t != fresh), "re-seated support is not equal to a fresh support on its new window");
+  VCHECK(o, t.calcUnion(fresh) == fresh && t.calcIntersection(fresh) == fresh, "union / intersection of a re-seated support with its fresh twin is not the window");
+  if (how == 2) {  // after a swap the other object is the former t
+    std::vector<double> p2;
+    for (size_t i = 0; i < n2; i++) p2.push_back(g2[i]);
+    battery(src, g2, p2, w2, o);
+  }
+  if (how == 1 || how == 3) VCHECK(o, src.empty() && support_invariant(src).empty(), "moved-from support is not a valid empty support");
+}
+
 // A few supports live for the whole process. Every case compares one of them with supports on freshly built grids
 // that die at the end of the case: equal content in a distinct object, or different content. Whatever a long-lived
 // object remembers about an earlier comparison partner (by address!) must not leak into a later comparison. Together
@@ -361,6 +408,20 @@ int main(int argc, char **argv) {
               }
       },
       [](const std::string &t, vf::Obs &o) { check_moved(vf::from_text<SupC>(t), o); });
+  vf::add_enum_sub(
+      "enum-reseated",
+      [guarded](vf::Sub &s, double) {
+        for (i64 n = 2; n <= std::min<i64>(g_maxn, 5); n++)
+          for (W w1 : windows(n))
+            for (W w2 : windows(n))
+              for (i64 gm = 0; gm <= 4; gm++)
+                for (i64 how = 0; how < 6; how++) {
+                  SupC c; c.n = n; c.s1 = w1.s; c.e1 = w1.e; c.s2 = w2.s; c.e2 = w2.e; c.gridmode = gm; c.s3 = how;
+                  vf::Obs o; guarded(check_reseated, c, o);
+                  if (!vf::emit(s, vf::to_text(c), o)) return;
+                }
+      },
+      [](const std::string &t, vf::Obs &o) { check_reseated(vf::from_text<SupC>(t), o); });
   auto gen = rc::gen::exec([] {
     SupC c;
     c.n = chance(30) ? pick(2, 12) : pick(13, 200);
@@ -375,6 +436,7 @@ int main(int argc, char **argv) {
   vf::add_sub<SupC>("random-pairs", 3000, gen, check_pair);
   vf::add_sub<SupC>("random-triples", 3000, gen, check_triple);
   vf::add_sub<SupC>("random-moved", 1000, gen, check_moved);
+  vf::add_sub<SupC>("random-reseated", 2000, gen, check_reseated);
   vf::add_sub<SupC>("long-lived-vs-fresh", 4000, rc::gen::exec([] {
     SupC c; c.n = pick(2, 12); c.gridmode = *rc::gen::weightedElement<i64>({{5, 1}, {3, 2}, {1, 3}, {1, 4}, {2, 5}}); return c; }), check_longlived);
   return vf::main_impl(argc, argv, "C13", true);
